@@ -537,7 +537,7 @@ func crossProtocol(g *rig) {
 func main() {
 	r = explore.Start("C09")
 	if r.Replay != "" {
-		r.Fault("replay: inject detail.input through a fake console; not implemented")
+		r.ReplayBySearch()
 	}
 	if idx, n, arg, ok := r.Worker(); ok {
 		r.Watchdog(60 * time.Second)
